@@ -11,9 +11,17 @@ for name in "$@"; do
   git -C /repo worktree add -q -f --detach $wt HEAD || { echo "$name worktree-failed"; continue; }
   if git -C $wt apply /verif/seeded/$name/patch.diff 2>/dev/null; then
     applies=true
+  elif git -C $wt apply --3way /verif/seeded/$name/patch.diff 2>/dev/null && ! git -C $wt diff HEAD | grep -q '^+<<<<<<<'; then
+    # the lines around the change moved (a later fix: commit): keep the change, refresh the patch
+    applies=true
+    git -C $wt diff HEAD > /verif/seeded/$name/patch.diff
+  else
+    applies=false
+  fi
+  if [ $applies = true ]; then
     out=$(PGV_REPO=$wt PGV_NO_EVIDENCE=1 ./check $pid quick 2>&1 | grep -E "^$pid|VIOLATION|HARNESS|signature=" | cut -c1-300 | head -8)
   else
-    applies=false; out=""
+    out=""
   fi
   git -C /repo worktree remove --force $wt
   /venv/bin/python - seeded/$name/meta.json "$applies" "$out" "$(git -C /repo log --format=%h -1)" "$(git -C /verif log --format=%h -1)" <<'PY'
